@@ -385,7 +385,7 @@ func hostileMain(rc *RunCtx) {
 					bound := uint64(32<<20) + 128*uint64(len(frame)) + 32*uint64(spec.Geo.NPieces) + 2*uint64(spec.Geo.PieceSize)
 					if h1-h0 > bound {
 						class := hm.class
-						if class == "" && state == "before-metadata" && bigVote > 0 && h1-h0 <= bigVote+bound {
+						if class != "bencode-declared-string-length" && state == "before-metadata" && bigVote >= 1<<20 && h1-h0 >= bigVote && h1-h0 <= bigVote+bound {
 							// the size a hostile peer voted for earlier in this run wins the
 							// (re)count only now: the same allocation, one message later
 							class = "metadata-size-vote"
